@@ -18,6 +18,7 @@ import PyhamModel.Model.Agg
 import PyhamModel.Model.Session
 import PyhamModel.Model.Oma
 import PyhamModel.Model.Newick
+import PyhamModel.Model.Sax
 import PyhamModel.Witness
 open Pyham
 
@@ -343,6 +344,21 @@ def decFilter (xs : List SExp) : Filter :=
     | .list (.atom "int" :: r) => { f with intIds := strs r }
     | _ => f) {}
 
+def decEv : SExp → Option Pyham.Sax.Ev
+  | .list [.atom "og", h, o] => some (.ogStart (optS h) (optS o))
+  | .list [.atom "/og"] => some .ogEnd
+  | .list [.atom "pg", o] => some (.pgStart (optS o))
+  | .list [.atom "/pg"] => some .pgEnd
+  | .list [.atom "ref", .str i] => some (.ref i none)
+  | .list [.atom "ref", .str i, .str l] => some (.ref i (some l))
+  | .list [.atom "score", .str i, .str v] => some (.score i v)
+  | .list [.atom "prop", .str n, .str v] => some (.prop n v)
+  | _ => none
+
+def obsS (b : Pyham.Sax.Obs) : String :=
+  toString b.depth ++ "," ++ (if b.skipping then "1" else "0") ++ "," ++ (match b.inPG with | some k => toString k | none => "-") ++ "," ++
+    "|".intercalate (b.frames.map fun f => toString f.1 ++ "/" ++ toString f.2.1 ++ "/" ++ toString f.2.2)
+
 def runQuery (T : STree) (nm : Naming) (inp : Input) (H? : Option Ham) (q : SExp) (o : OutBuf) : OutBuf :=
   match q, H? with
   | .list [.atom "v", a, d], some H =>
@@ -401,6 +417,21 @@ def runQuery (T : STree) (nm : Naming) (inp : Input) (H? : Option Ham) (q : SExp
   | .list [.atom "parse", .str txt], _ =>
     -- the model's Newick READER on a text written by pyham (compared with ete3's reading of the same text)
     o.put "txparse" (txt ++ " => " ++ (match parseNewick txt with | some t => treeS t | none => "none"))
+  | .list (.atom "sax" :: flt :: keep :: evs), _ =>
+    -- the calls the XML library really made to pyham's parser object, replayed through the stack machine of Model/Sax.lean;
+    -- the harness compares the state after every call with what it read off the parser object (lock step), and the events
+    -- with the event stream the model derives from the abstract syntax (`saxev`)
+    let fl : HogFilter := match flt with | .list (.atom "ids" :: r) => some (strs r) | _ => none
+    let keepG : String → Bool := match keep with | .list (.atom "ids" :: r) => (strs r).contains | _ => fun _ => true
+    let events := evs.filterMap decEv
+    match declareSpecies T nm keepG inp.species [] with
+    | .error e => o.put "saxtr" ("species:" ++ e.toStr)
+    | .ok genes =>
+      let env : Env := { T := T, nm := nm, geneTx := genes.reverse.map fun g => (g.id, g.tx) }
+      let r := Pyham.Sax.trace env fl events {}
+      let o := o.put "saxtr" (";".intercalate (r.1.map obsS) ++ "#" ++ (match r.2 with | none => "ok" | some e => "err:" ++ e.toStr))
+      let mine := Pyham.Sax.eventsL inp.groups
+      o.put "saxev" (if events == mine || (r.2.isSome && events.isPrefixOf mine) then "1" else "0")
   | .list [.atom "oma"], _ =>
     -- the same file loaded with species_resolve_mode="OMA"
     match loadOMA T nm inp with
